@@ -24,13 +24,14 @@ def build_bins():
     return out
 
 
-def one(exe, flav, seed, nth, nops, rounds, limit=150):
+def one(exe, flav, seed, nth, nops, rounds, limit=150, first=False):
     env = dict(os.environ)
     env["TSAN_OPTIONS"] = "halt_on_error=0:exitcode=66:report_signal_unsafe=0:history_size=4"
     env["ASAN_OPTIONS"] = "detect_leaks=0:abort_on_error=0:exitcode=99"
     env["UBSAN_OPTIONS"] = "halt_on_error=1:exitcode=98"
+    env["VERIF_ROOT"] = ROOT
     try:
-        r = subprocess.run([exe, str(seed), str(nth), str(nops), str(rounds)], env=env, stdout=subprocess.PIPE, stderr=subprocess.PIPE, text=True, errors="replace", timeout=limit)
+        r = subprocess.run([exe, str(seed), str(nth), str(nops), str(rounds)] + (["threads-first"] if first else []), env=env, stdout=subprocess.PIPE, stderr=subprocess.PIPE, text=True, errors="replace", timeout=limit)
     except subprocess.TimeoutExpired:
         return {"timeout": True}
     res = {"rc": r.returncode, "races": [], "json": None, "stderr_tail": ""}
@@ -97,6 +98,26 @@ def run(prop, tier, seed, jobs):
                 p = os.path.join(d, "%s-%d-%d.json" % (flav, nth, seed))
                 json.dump({"property": "C18", "flavour": flav, "seed": seed * 100 + nth, "threads": nth, "ops": nops, "rounds": rounds, "symptom": what[0], "detail": what[1], "recurred": again}, open(p, "w"), indent=1)
                 violations.append({"symptom": what[0], "detail": what[1], "replay": p})
+    # fresh processes whose very first use of the library is concurrent (first asm_create_instance calls racing)
+    nfresh = 40 if tier == "quick" else 400
+    fresh_bad = []; fresh_evals = 0
+    for k in range(nfresh):
+        flav = "tsan" if k % 2 == 0 else "asan"
+        res = one(bins[flav], flav, seed * 1000 + k, 8 + 8 * (k % 2), 2, 1, 60, True)
+        j = res.get("json") if not res.get("timeout") else None
+        if j:
+            fresh_evals += j["evaluations"]
+        if res.get("timeout") or res.get("races") or res.get("sanitizer") or (j and j["mismatches"]) or (not j and not res.get("timeout")):
+            fresh_bad.append((flav, seed * 1000 + k, 8 + 8 * (k % 2), res))
+    evals += fresh_evals
+    samples.append("%d fresh processes (TSan/ASan alternating) whose first use of the library is 8-16 threads creating instances at once: %d results compared, %d processes with a report" % (nfresh, fresh_evals, len(fresh_bad)))
+    if len(fresh_bad) >= 2 or (len(fresh_bad) == 1 and nfresh < 100):
+        flav, sd, nth, res = fresh_bad[0]
+        det = (res.get("races") or [None])[0] or res.get("sanitizer") or ((res.get("json") or {}).get("first")) or "abnormal exit / timeout"
+        d = os.path.join(ROOT, "replays", "C18"); os.makedirs(d, exist_ok=True)
+        p = os.path.join(d, "fresh-%s-%d.json" % (flav, seed))
+        json.dump({"property": "C18", "flavour": flav, "seed": sd, "threads": nth, "ops": 2, "rounds": 1, "first": True, "symptom": "first-use-concurrent", "detail": det, "processes_with_report": len(fresh_bad), "processes": nfresh}, open(p, "w"), indent=1)
+        violations.append({"symptom": "first-use-concurrent", "detail": "%d of %d fresh processes: %s" % (len(fresh_bad), nfresh, str(det)[-300:]), "replay": p})
     if overlaps == 0:
         inconclusive.append("no create/lookup overlap between threads was observed")
     cov = {"evaluations": evals, "distinct_nontrivial": distinct, "samples": samples,
@@ -123,11 +144,11 @@ def replay(prop, path):
     bins = build_bins()
     d = json.load(open(path))
     bad = 0
-    for k in range(5):
-        r = one(bins[d["flavour"]], d["flavour"], d["seed"], d["threads"], d["ops"], d["rounds"])
+    for k in range(60 if d.get("first") else 5):
+        r = one(bins[d["flavour"]], d["flavour"], d["seed"] + (k if d.get("first") else 0), d["threads"], d["ops"], d["rounds"], 150, bool(d.get("first")))
         if r.get("timeout") or r.get("races") or r.get("sanitizer") or (r.get("json") or {}).get("mismatches") or not r.get("json"):
             bad += 1
-    print("%d of 5 runs of the recorded configuration fail" % bad)
+    print("%d runs of the recorded configuration fail" % bad)
     if bad:
         print("VIOLATION property=C18 replay=%s" % path); return 1
     print("replay passes"); return 0
